@@ -75,7 +75,8 @@ def obj(index, db, rep):
     rep.check(ok, rule, "model-objective", "the LP objective is no longer exactly variables['objective_function'], "
               "set unconditionally at the end of add_variables_and_constraints_to_model", loc=loc(OPT, fn))
     for m in ("optimize_to_humans", "optimize_feed_to_animals"):
-        f = index.func(OPT, "Optimizer." + m)
+        f = index.flat_func(OPT, "Optimizer." + m, keep=("run_optimizations_on_constraints", "add_variables_and_constraints_to_model",
+                                                        "optimize_to_humans", "optimize_feed_to_animals"))
         lp = [c for c in ast.walk(f) if isinstance(c, ast.Call) and dotted(c.func) == "LpProblem"]
         ok = len(lp) == 1 and any(k.arg == "sense" and norm_src(k.value) == "LpMaximize" for k in lp[0].keywords)
         rep.check(ok, rule, f"{m}:LpProblem-sense", "the LP is not created with sense=LpMaximize", loc=loc(OPT, f))
@@ -258,13 +259,13 @@ def read(index, rep):
               loc=loc(OPT, fn))
     rep.check(ret is not None and isinstance(ret.value, ast.Name) and ret.value.id == read_name, rule,
               "returned-value", "the function no longer returns the value read after the first solve", loc=loc(OPT, fn))
+    BUILD = ("run_optimizations_on_constraints", "add_variables_and_constraints_to_model", "optimize_to_humans", "optimize_feed_to_animals")
     for m in ("optimize_to_humans", "optimize_feed_to_animals"):
-        f = index.func(OPT, "Optimizer." + m)
-        asg = [s for s in f.body if isinstance(s, ast.Assign) and isinstance(s.value, ast.Call)
-               and dotted(s.value.func) == "self.run_optimizations_on_constraints"]
-        r = [s for s in f.body if isinstance(s, ast.Return)]
-        ok = len(asg) == 1 and r and isinstance(r[-1].value, ast.Tuple) and len(r[-1].value.elts) == 4 and \
-            isinstance(r[-1].value.elts[3], ast.Name) and r[-1].value.elts[3].id == asg[0].targets[0].id
+        f = index.flat_func(OPT, "Optimizer." + m, keep=BUILD)       # a shared build-and-solve helper is read as part of either entry point
+        r = [s for s in walk_no_nested(f) if isinstance(s, ast.Return)]
+        from .core import Inliner as _Inl2
+        ok = bool(r) and isinstance(r[-1].value, ast.Tuple) and len(r[-1].value.elts) == 4 and \
+            _Inl2(f).at(r[-1]).src(r[-1].value.elts[3]).startswith("self.run_optimizations_on_constraints(")
         rep.check(ok, rule, f"{m}:fourth-return-slot", "fourth element of the returned tuple is not the first-solve optimum",
                   loc=loc(OPT, f))
     rep.require_min(rule, 5)
